@@ -26,6 +26,17 @@ func VerifH_v4_seq() {
 	}
 	end := start + uint32(n) - 1
 	m := pre[0] // reference: bit i set = block i outstanding
+	if vnd.Pick("fresh", 0, 1) == 1 {
+		// the state the real constructor leaves (whatever else it sets up), nothing outstanding
+		sb := []byte{byte(start >> 24), byte(start >> 16), byte(start >> 8), byte(start)}
+		eb := []byte{byte(end >> 24), byte(end >> 16), byte(end >> 8), byte(end)}
+		fa, err := NewIPv4Allocator(net.IP(sb), net.IP(eb))
+		vnd.Assert(err == nil && fa != nil, "C05 v4 constructor accepts a non-empty range")
+		if err != nil || fa == nil {
+			return
+		}
+		a, m = fa, 0
+	}
 	all := ^uint64(0)
 	if n < 64 {
 		all = uint64(1)<<uint(n) - 1
@@ -41,7 +52,9 @@ func VerifH_v4_seq() {
 				b := vnd.Bytes("hint"+ls, 4)
 				hint, named, hv = net.IP(b), true, uint32(b[0])<<24|uint32(b[1])<<16|uint32(b[2])<<8|uint32(b[3])
 			}
+			vnd.Share("alloc4", a) // access log for the lockset verdict: the calls only, not the harness's own inspection
 			got, err := a.Allocate(net.IPNet{IP: hint})
+			vnd.Unshare()
 			if err != nil {
 				vnd.Assert(err == allocators.ErrNoAddrAvail, "C05 sequence: failure reports no address available")
 				vnd.Assert(m == all, "C05 sequence: Allocate fails only when every address is outstanding")
@@ -55,6 +68,7 @@ func VerifH_v4_seq() {
 				i := uint64(v - start)
 				vnd.Assume(i < uint64(n))
 				vnd.Assert(m>>i&1 == 0, "C04 sequence: an address is never handed out again without a Free in between")
+				vnd.Assert(m>>i&1 == 0, "C06 sequence: after any Free no later Allocate returns an address somebody still holds")
 				hi := uint64(hv - start)
 				hintFree := vnd.And(named, vnd.And(vnd.And(hv >= start, hv <= end), m>>(hi&63)&1 == 0))
 				vnd.Assert(vnd.Implies(hintFree, v == hv), "C07 sequence: a free hinted address is returned exactly")
@@ -63,7 +77,9 @@ func VerifH_v4_seq() {
 		} else {
 			b := vnd.Bytes("arg"+ls, 4)
 			av := uint32(b[0])<<24 | uint32(b[1])<<16 | uint32(b[2])<<8 | uint32(b[3])
+			vnd.Share("alloc4", a)
 			err := a.Free(net.IPNet{IP: net.IP(b), Mask: net.CIDRMask(32, 32)})
+			vnd.Unshare()
 			i := uint64(av - start)
 			held := vnd.And(vnd.And(av >= start, av <= end), m>>(i&63)&1 == 1)
 			if held {
@@ -73,11 +89,11 @@ func VerifH_v4_seq() {
 				vnd.Assert(err != nil, "C06 sequence: Free of an address that is not outstanding fails")
 			}
 		}
-		w := a.bitmap.Bytes()
-		vnd.Assert(len(w) == 1 && w[0] == m, "C04 sequence: the allocator's bookkeeping equals the set of outstanding addresses after every call")
-		if len(w) != 1 {
-			return
+		same := true
+		for i := 0; i < n; i++ {
+			same = vnd.And(same, a.bitmap.Test(uint(i)) == (m>>uint(i)&1 == 1))
 		}
+		vnd.Assert(same, "C04 sequence: the allocator's bookkeeping equals the set of outstanding addresses after every call")
 	}
 	vnd.Cover("sequence")
 }
@@ -89,6 +105,14 @@ func VerifH_v6_seq() {
 		vnd.Assume(false)
 	}
 	m := pre[0]
+	if vnd.Pick("fresh", 0, 1) == 1 {
+		fa, err := NewBitmapAllocator(a.containing, page)
+		vnd.Assert(err == nil && fa != nil, "C05 v6 constructor accepts a valid pool")
+		if err != nil || fa == nil {
+			return
+		}
+		a, m = fa, 0
+	}
 	all := ^uint64(0)
 	if n < 64 {
 		all = uint64(1)<<uint(n) - 1
@@ -104,7 +128,9 @@ func VerifH_v6_seq() {
 				b := vnd.Bytes("hint"+ls, 16)
 				hint, h = net.IPNet{IP: net.IP(b), Mask: net.CIDRMask(page, 128)}, vnd.U128From(b)
 			}
+			vnd.Share("alloc6", a)
 			got, err := a.Allocate(hint)
+			vnd.Unshare()
 			if err != nil {
 				vnd.Assert(err == allocators.ErrNoAddrAvail, "C05 sequence: failure reports no address available")
 				vnd.Assert(m == all, "C05 sequence: Allocate fails only when every block is outstanding")
@@ -120,6 +146,7 @@ func VerifH_v6_seq() {
 				i := idx.Lo
 				vnd.Assume(vnd.And(idx.Hi == 0, i < uint64(n)))
 				vnd.Assert(m>>i&1 == 0, "C04 sequence: a block is never handed out again without a Free in between")
+				vnd.Assert(m>>i&1 == 0, "C06 sequence: after any Free no later Allocate returns a block somebody still holds")
 				if op == 1 {
 					inPool := vnd.U128Eq(vnd.U128And(h, vnd.U128Not(lowMask(128-L))), base)
 					hi := vnd.U128Lshr(vnd.U128Sub(h, base), uint(128-page)).Lo
@@ -130,7 +157,9 @@ func VerifH_v6_seq() {
 		} else {
 			b := vnd.Bytes("arg"+ls, 16)
 			p := vnd.U128From(b)
+			vnd.Share("alloc6", a)
 			err := a.Free(net.IPNet{IP: net.IP(b), Mask: net.CIDRMask(page, 128)})
+			vnd.Unshare()
 			inPool := vnd.U128Eq(vnd.U128And(p, vnd.U128Not(lowMask(128-L))), base)
 			i := vnd.U128Lshr(vnd.U128Sub(p, base), uint(128-page)).Lo
 			held := vnd.And(inPool, m>>(i&63)&1 == 1)
@@ -141,11 +170,11 @@ func VerifH_v6_seq() {
 				vnd.Assert(err != nil, "C06 sequence: Free of a block that is not outstanding fails")
 			}
 		}
-		w := a.bitmap.Bytes()
-		vnd.Assert(len(w) == 1 && w[0] == m, "C04 sequence: the allocator's bookkeeping equals the set of outstanding blocks after every call")
-		if len(w) != 1 {
-			return
+		same := true
+		for i := 0; i < n; i++ {
+			same = vnd.And(same, a.bitmap.Test(uint(i)) == (m>>uint(i)&1 == 1))
 		}
+		vnd.Assert(same, "C04 sequence: the allocator's bookkeeping equals the set of outstanding blocks after every call")
 	}
 	vnd.Cover("sequence")
 }
